@@ -151,7 +151,7 @@ func init() {
 		New:      func() interface{} { return &C09Case{} },
 		Run:      c09Run,
 		Setup:    func(string) { InstallSeqHooks() },
-		Rule: "histories Solve? (AppendClause(c) Solve?)* with 1..8 additions over base problems of 2..8 variables (CNF via ParseSliceNb, cardinality, PB); each added constraint is built afresh by NewClause, NewCardClause or PBConstr.Clause() and crafted against the literals fixed by the current conjunction (computed by the reference): already satisfied, unit, contradictory, plain unit, repeated literal, complementary pair, brand-new variables (growth 1..3), cardinality, PB, plain clause; learned limit default or 3; every Solve is compared with the truth table of base AND all additions so far. " +
+		Rule: "histories Solve? (AppendClause(c) Solve?)* with 1..8 additions over base problems of 2..8 variables (CNF via ParseSliceNb, cardinality, PB); each added constraint is built afresh by NewClause, NewCardClause or PBConstr.Clause() and crafted against the literals fixed by the current conjunction (computed by the reference): already satisfied, unit, contradictory, plain unit, repeated literal, complementary pair, brand-new variables (growth 1..3), cardinality, PB, plain clause; learned limit default or 3; every Solve is compared with the truth table of base AND all additions so far.  Cardinality additions list one literal twice in a quarter of the cases and a literal with its negation in some others (multiplicities count, a literal and its negation contribute exactly one); PB additions sometimes carry two terms on one literal. " +
 			"non-trivial = >= 2 additions and >= 2 solves; distinct by (base, history)",
 		Assumptions: []string{
 			"reference truth table of internal/ref",
@@ -159,7 +159,7 @@ func init() {
 			"added cardinality / PB constraints mention each variable at most once; PB constraints that normalise to a degree <= 0 are trivially true and are not handed to AppendClause (NewPBClause rejects them)",
 		},
 		Floors: map[string]map[string]int64{
-			"quick":    {"solves": 100000, "unsat_solves": 10000, "adds_new-variables": 1000, "adds_repeated-literal": 1000},
+			"quick":    {"solves": 100000, "unsat_solves": 10000, "adds_new-variables": 1000, "adds_repeated-literal": 1000, "adds_card-repeated-literal": 3000},
 			"thorough": {"solves": 2000000, "unsat_solves": 200000, "adds_new-variables": 20000, "adds_repeated-literal": 20000},
 		},
 	})
